@@ -307,6 +307,65 @@ def eligible(chk, P):
     chk.floor("ELIGIBLE", 8)
 
 
+def fold(chk, P):
+    chk.rule("FOLD", "chooseNewBaseBody returns its `none` sentinel only if no body outside the tree was seen: the arg-max accumulator starts below every possible value, so the "
+             "first candidate is always accepted, and every other way to pass over a candidate depends on a flag that is raised only when a candidate is accepted")
+    f = P.fn(G + "::chooseNewBaseBody")
+    rets = [r for _, _, r in f.events(lambda q: q["k"] == "ret")]
+    rv = var_of(_strip(rets[0]["val"])) if len(rets) == 1 else None
+    rd = [d for _, _, d in f.events(lambda q: q["k"] == "decl" and q["var"] == rv)]
+    if not chk.shape(rv is not None and len(rd) == 1 and (_lit(rd[0].get("init"), ("-1",)) or (isinstance(_strip(rd[0].get("init")), list) and _strip(rd[0]["init"])[:2] == ["un", "-"])), "FOLD", "chooseNewBaseBody:sentinel", f.loc,
+                     "the result starts as -1"):
+        return
+    loops = f.loops()
+    sets = [(b, q) for b, _, q in f.events(lambda q: q["k"] == "assign" and q["lhs"] == ["var", rv])]
+    chk.shape(len(sets) >= 1 and all(any(b in body for body in loops.values()) for b, _ in sets), "FOLD", "chooseNewBaseBody:candidate-assignments", f.loc, "%d" % len(sets))
+    h = [h_ for h_ in loops if all(b in loops[h_] for b, _ in sets)]
+    if not h:
+        return
+    h = min(h, key=lambda h_: len(loops[h_]))
+    body = loops[h]
+    # the size comparison(s) that guard an assignment, and their accumulator
+    accs = {}
+    for b in body:
+        t = f.blocks[b].get("term")
+        c = _strip(t.get("cond")) if t and t.get("cond") is not None else None
+        if isinstance(c, list) and len(c) == 4 and c[0] == "op" and c[1] in (">", ">=") and sx_find(c[2], lambda y: y[0] == "call" and str(y[1]).endswith("::size")) and _strip(c[3])[:1] == ["var"]:
+            accs[_strip(c[3])[1]] = c[1]
+    if not chk.shape(len(accs) == 1, "FOLD", "chooseNewBaseBody:accumulator", f.loc, "%s" % sorted(accs)):
+        return
+    av, op = next(iter(accs.items()))
+    ad = [d for _, _, d in f.events(lambda q: q["k"] == "decl" and q["var"] == av)]
+    init = _strip(ad[0].get("init")) if len(ad) == 1 else None
+    val = None
+    if isinstance(init, list) and init[:1] == ["lit"]:
+        val = int(init[1])
+    elif isinstance(init, list) and init[:2] == ["un", "-"] and _strip(init[2])[:1] == ["lit"]:
+        val = -int(_strip(init[2])[1])
+    okinit = val is not None and (val < 0 if op == ">" else val <= 0)
+    chk.judge(okinit, "FOLD", "chooseNewBaseBody:accumulator-starts-below-every-size", f.loc,
+              "`size() %s %s` with %s starting at %s: a size is >= 0, so the first candidate is accepted only if the start is %s" % (op, av, av, val, "< 0" if op == ">" else "<= 0"))
+    # other ways around the assignments: guards on flags that are raised only where a candidate is accepted (or the in-tree filter)
+    flags = set()
+    for b in body:
+        t = f.blocks[b].get("term")
+        c = t.get("cond") if t and t.get("cond") is not None else None
+        for y in sx_find(c, lambda y: y[0] == "var"):
+            ds = [d for _, _, d in f.events(lambda q: q["k"] == "decl" and q["var"] == y[1])]
+            if len(ds) == 1 and "bool" in str(ds[0].get("ty", "")):
+                flags.add(y[1])
+    okflags = True
+    for fl in flags:
+        ups = [b for b, _, q in f.events(lambda q: q["k"] == "assign" and q["lhs"] == ["var", fl] and _lit(q.get("rhs"), ("true", "1")))]
+        ds = [d for _, _, d in f.events(lambda q: q["k"] == "decl" and q["var"] == fl)]
+        okflags = okflags and _lit(ds[0].get("init"), ("false", "0")) and bool(ups) and all(any(b == sb for sb, _ in sets) for b in ups)
+    chk.judge(okflags, "FOLD", "chooseNewBaseBody:skip-flags-raised-only-with-a-candidate", f.loc, "flags %s" % sorted(flags))
+    # every accumulator update accompanies a candidate assignment
+    aw = [b for b, _, q in f.events(lambda q: q["k"] == "assign" and q["lhs"] == ["var", av])]
+    chk.judge(bool(aw) and all(any(b == sb for sb, _ in sets) for b in aw) and all(any(sb == b for b in aw) for sb, _ in sets), "FOLD", "chooseNewBaseBody:accumulator-updated-with-the-candidate", f.loc, "")
+    chk.floor("FOLD", 3)
+
+
 def run(chk, tier, overlays=()):
     units = units_matching(UNITS)
     P = Program(extract(units, hdr="^$", overlays=overlays))
@@ -316,6 +375,7 @@ def run(chk, tier, overlays=()):
     mirror(chk, P)
     cover(chk, P)
     eligible(chk, P)
+    fold(chk, P)
 
 
 _F = "SimTKmath/src/MultibodyGraphMaker.cpp"
@@ -345,6 +405,8 @@ MUTATIONS = [
     dict(name="growTree's main loop no longer skips must-be-loop joints", file=_F,
          old="            if (joint.mustBeLoopJoint) continue; // can't be a tree joint\n            const Body& parent = getBody(joint.parentBodyNum);\n            const Body& child  = getBody(joint.childBodyNum);\n            // Exactly one",
          new="            const Body& parent = getBody(joint.parentBodyNum);\n            const Body& child  = getBody(joint.childBodyNum);\n            // Exactly one", expect="ELIGIBLE:growTree:main:joint-is-not-must-be-loop"),
+    dict(name="seeded (sub-agent): base-body search starts its child count at 0", file=_F,
+         old="    int bestBody = -1; int nChildren=-1;", new="    int bestBody = -1; int nChildren=0;", expect="FOLD:chooseNewBaseBody:accumulator-starts-below-every-size"),
     dict(name="slave not recorded in its master", file=_F,
          old="    master.slaves.push_back(slaveBodyNum);\n", new="", expect="COVER:splitBody"),
 ]
